@@ -10,12 +10,15 @@ decides whether small instances are filtered and against which threshold
 (`if min_instance_peaks > 0:` … `int(min_instance_peaks * n_nodes)` for a float …
 `instance_peak_counts[instance] >= min_instance_peaks`).
 
-The C08 theorems (`assign_eq_filterSmall`, `instance_score_sum`, …) are about
-`Grouping.filterSmall (assignRaw cs) (minPeaksThreshold mp nNodes)`.  The theorems below say that the
-generated threshold and filter are exactly `minPeaksThreshold` / the predicate of `filterSmall`
-(`gen_min_peaks_eq_model`, `gen_keeps_eq_model`, `gen_filter_eq_model`) and, directly about the
-generated definition, that the threshold compared with the peak counts is always an integer and a
-float is always read as a fraction of the node count — `1.0` means "every node"
+The code multiplies a float `min_instance_peaks` by `n_nodes` **in float64** before `int()`; the
+translation reads it that way (`pyMul` rounds with `Grouping.roundF64`), so the generated threshold
+is tied to the model's literal rule `Grouping.minPeaksThresholdF64` — the rule the C08 pipeline
+model follows through `effMinPeaks` / `mkParams` (`Lemmas/GroupingOut.filterSmall_eff`,
+`Props/C08`) — with no exactness caveat: `gen_min_peaks_eq_model`, `gen_keeps_eq_model`,
+`gen_filter_eq_model` (also in the `effMinPeaks` form).  When the double product happens to be exact
+(dyadic fractions) this is the idealised `minPeaksThreshold` (`gen_min_peaks_eq_exact`).  Directly
+about the generated definition: the threshold compared with the peak counts is always an integer
+and a float is always read as a fraction of the node count — `1.0` means "every node"
 (`gen_threshold_is_int`, `gen_float_is_fraction`).
 -/
 
@@ -31,23 +34,68 @@ def ofModel : MinPeaks → PyNum
 
 theorem natCast_cast (n : Nat) : (((n : Int) : Rat)) = (n : Rat) := by norm_cast
 
-/-- **the translated block computes the model's threshold** (`none` = no filtering), for an integer
-and for a float argument alike -/
+theorem pow2_pos (e : Int) : 0 < pow2 e := by
+  unfold pow2
+  have h2 : ∀ k : Nat, (0 : Rat) < ((2 ^ k : Nat) : Rat) := fun k =>
+    Rat.natCast_pos.mpr (Nat.two_pow_pos k)
+  split
+  · exact h2 _
+  · rw [Rat.div_def, Rat.one_mul]; exact Rat.inv_pos.mpr (h2 _)
+
+theorem roundHalfEven_nonneg {y : Rat} (hy : 0 ≤ y) : 0 ≤ roundHalfEven y := by
+  have hf : (0 : Int) ≤ y.floor := Rat.le_floor_iff.mpr (by simpa using hy)
+  unfold roundHalfEven
+  simp only
+  split
+  · exact hf
+  · split
+    · omega
+    · split <;> omega
+
+/-- float64 rounding keeps non-negative numbers non-negative -/
+theorem roundF64_nonneg {x : Rat} (hx : 0 ≤ x) : 0 ≤ roundF64 x := by
+  have key : ∀ e : Int, 0 < x → (0 : Rat) ≤ (roundHalfEven (x / pow2 e) : Rat) * pow2 e := by
+    intro e hx'
+    have hp := pow2_pos e
+    have hy : (0 : Rat) ≤ x / pow2 e := by
+      rw [Rat.div_def]; exact Rat.mul_nonneg hx (Rat.le_of_lt (Rat.inv_pos.mpr hp))
+    have hr : (0 : Rat) ≤ (roundHalfEven (x / pow2 e) : Rat) :=
+      Rat.intCast_nonneg.mpr (roundHalfEven_nonneg hy)
+    exact Rat.mul_nonneg hr (Rat.le_of_lt hp)
+  unfold roundF64
+  split
+  · exact hx
+  · rename_i h
+    exact key _ (Rat.not_le.mp h)
+
+/-- **the translated block computes the code's threshold as the model states it**
+(`minPeaksThresholdF64`: integer as it is, float ↦ `int` of the float64 product; `none` = no
+filtering) -/
 theorem gen_min_peaks_eq_model (mp : MinPeaks) (nNodes : Nat) :
-    min_peaks_threshold (ofModel mp) (nNodes : Int) = (minPeaksThreshold mp nNodes).map PyNum.int := by
+    min_peaks_threshold (ofModel mp) (nNodes : Int) = (minPeaksThresholdF64 mp nNodes).map PyNum.int := by
   cases mp with
   | int n =>
     have e : (0 : Rat) < (n : Rat) ↔ 0 < n := by
       have := @Rat.intCast_lt_intCast 0 n; simpa using this
     by_cases h : 0 < n <;>
-      simp [min_peaks_threshold, ofModel, minPeaksThreshold, pyGt, pyIsFloat, PyNum.toRat, e, h]
+      simp [min_peaks_threshold, ofModel, minPeaksThresholdF64, pyGt, pyIsFloat, PyNum.toRat, e, h]
   | frac q =>
     by_cases h : 0 < q
-    · have hn : (0 : Rat) ≤ q * (nNodes : Rat) :=
-        Rat.mul_nonneg (Rat.le_of_lt h) Rat.natCast_nonneg
-      simp [min_peaks_threshold, ofModel, minPeaksThreshold, pyGt, pyLt, pyGe, pyLe, pyIsFloat, pyIsInt,
+    · have hn : (0 : Rat) ≤ roundF64 (q * (nNodes : Rat)) :=
+        roundF64_nonneg (Rat.mul_nonneg (Rat.le_of_lt h) Rat.natCast_nonneg)
+      simp [min_peaks_threshold, ofModel, minPeaksThresholdF64, pyGt, pyLt, pyGe, pyLe, pyIsFloat, pyIsInt,
         pyMul, pyInt, PyNum.toRat, h, hn, natCast_cast]
-    · simp [min_peaks_threshold, ofModel, minPeaksThreshold, pyGt, PyNum.toRat, h]
+    · simp [min_peaks_threshold, ofModel, minPeaksThresholdF64, pyGt, PyNum.toRat, h]
+
+/-- when the float64 product is exact (e.g. a dyadic fraction of a small node count) the threshold is
+the idealised `⌊q · n⌋` of `minPeaksThreshold` -/
+theorem gen_min_peaks_eq_exact (mp : MinPeaks) (nNodes : Nat)
+    (hx : ∀ q, mp = .frac q → roundF64 (q * (nNodes : Rat)) = q * (nNodes : Rat)) :
+    min_peaks_threshold (ofModel mp) (nNodes : Int) = (minPeaksThreshold mp nNodes).map PyNum.int := by
+  rw [gen_min_peaks_eq_model]
+  cases mp with
+  | int n => rfl
+  | frac q => simp only [minPeaksThresholdF64, minPeaksThreshold, hx q rfl]
 
 /-- the translated filter condition is the predicate of `filterSmall`: keep iff `t ≤ count` -/
 theorem gen_keeps_eq_model (t : Int) (count : Nat) :
@@ -55,14 +103,15 @@ theorem gen_keeps_eq_model (t : Int) (count : Nat) :
   have e : (t : Rat) ≤ ((count : Int) : Rat) ↔ t ≤ (count : Int) := Rat.intCast_le_intCast
   simp [keeps, pyGe, PyNum.toRat, e]
 
-/-- **threshold + filter = the model's `filterSmall`** on every assignment table -/
+/-- **threshold + filter = the model's `filterSmall`** with the code's rule, on every assignment
+table — equivalently (what the pipeline model `mkParams` uses) with `effMinPeaks` -/
 theorem gen_filter_eq_model (a : Assign) (mp : MinPeaks) (nNodes : Nat) :
     (match min_peaks_threshold (ofModel mp) (nNodes : Int) with
       | none => a
       | some t => a.filter fun kv => keeps t ((countId a kv.2 : Nat) : Int))
-    = filterSmall a (minPeaksThreshold mp nNodes) := by
+    = filterSmall a (minPeaksThresholdF64 mp nNodes) := by
   rw [gen_min_peaks_eq_model]
-  cases minPeaksThreshold mp nNodes with
+  cases minPeaksThresholdF64 mp nNodes with
   | none => rfl
   | some t => simp only [Option.map_some, filterSmall, gen_keeps_eq_model]
 
@@ -83,20 +132,23 @@ theorem gen_threshold_is_int (x : PyNum) (n : Int) (t : PyNum)
     · cases h
 
 /-- directly about the generated definition: a positive float is always read as a fraction of the
-node count — also when it is `≥ 1`; `1.0` asks for every node -/
+node count, product in float64 — also when it is `≥ 1`; `1.0` asks for every node; and the
+float64 product matters: `0.6` (the double) of 5 nodes is 3, not the exact `⌊·⌋ = 2` -/
 theorem gen_float_is_fraction (q : Rat) (hq : 0 < q) (nNodes : Nat) :
-    min_peaks_threshold (.float q) (nNodes : Int) = some (.int (q * (nNodes : Rat)).floor) ∧
-    min_peaks_threshold (.float 1) (nNodes : Int) = some (.int nNodes) := by
-  have key : ∀ r : Rat, 0 < r →
-      min_peaks_threshold (.float r) (nNodes : Int) = some (.int (r * (nNodes : Rat)).floor) := by
-    intro r hr
-    have := gen_min_peaks_eq_model (.frac r) nNodes
-    simpa [ofModel, minPeaksThreshold, hr] using this
-  refine ⟨key q hq, ?_⟩
-  rw [key 1 (by decide)]
-  have : ((1 : Rat) * (nNodes : Rat)).floor = (nNodes : Int) := by
-    rw [Rat.one_mul, ← natCast_cast, Rat.floor_intCast]
-  rw [this]
+    min_peaks_threshold (.float q) (nNodes : Int) = some (.int (roundF64 (q * (nNodes : Rat))).floor) ∧
+    (roundF64 (q * (nNodes : Rat)) = q * (nNodes : Rat) →
+      min_peaks_threshold (.float q) (nNodes : Int) = some (.int (q * (nNodes : Rat)).floor)) := by
+  have key : min_peaks_threshold (.float q) (nNodes : Int)
+      = some (.int (roundF64 (q * (nNodes : Rat))).floor) := by
+    have := gen_min_peaks_eq_model (.frac q) nNodes
+    simpa [ofModel, minPeaksThresholdF64, hq] using this
+  exact ⟨key, fun h => by rw [key, h]⟩
+
+/-- the double nearest to `0.6` -/
+def d06 : Rat := mkRat 5404319552844595 9007199254740992
+
+example : min_peaks_threshold (.float 1) 3 = some (.int 3) ∧
+    min_peaks_threshold (.float d06) 5 = some (.int 3) ∧ (d06 * 5).floor = 2 := by decide +kernel
 
 example : min_peaks_threshold (.float (mkRat 1 2)) 5 = some (.int 2) ∧
     min_peaks_threshold (.float 1) 3 = some (.int 3) ∧ min_peaks_threshold (.int 2) 3 = some (.int 2) ∧
